@@ -43,7 +43,7 @@ m={
  "engines":[{"name":"vcheck","path":"/verif/engine","serves_properties":sorted(CLAIMED),"kind_free_text":"hand-written bounded-exhaustive explorer in Go: enumerates every case/operation sequence/crash image/fault position/schedule of a stated bound, runs each on the real go-car code built from /repo's working tree, compares with an independent reference codec and reference models"}],
  "checks":checks,
  "not_applicable":na,
- "notes":"All checks run the implementation itself (no abstract model to drift): traces_validated_against_impl == executions. Exit 0 held / 1 violation / 2 harness or build problem. Known findings: /verif/KNOWN_FINDINGS.txt. Assertions that go beyond a property statement (documented or current behaviour the statement leaves open) are recorded in the evidence as outcome classes 'beyond-statement:*' and never raise a violation (DESIGN.md section 15). Regression corpora: seeded/ (60 property-breaking changes), demos/, benign/ (286 changes with expected verdicts); tools/seedregress.sh, tools/fixregress.sh, tools/benignregress.sh.",
+ "notes":"All checks run the implementation itself (no abstract model to drift): traces_validated_against_impl == executions. Exit 0 held / 1 violation / 2 harness or build problem. Known findings: /verif/KNOWN_FINDINGS.txt. Assertions that go beyond a property statement (documented or current behaviour the statement leaves open) are recorded in the evidence as outcome classes 'beyond-statement:*' and never raise a violation (DESIGN.md section 15). Regression corpora: seeded/ (100 property-breaking changes written by independent sub-agents in 5 rounds), demos/, benign/ (284 changes with expected verdicts); tools/seedregress.sh, tools/fixregress.sh, tools/benignregress.sh.",
 }
 json.dump(m,open('/verif/MANIFEST.json','w'),indent=1)
 print("claimed",sorted(CLAIMED),"not claimed",[x['property_id'] for x in na])
